@@ -32,7 +32,7 @@ func pgpKeyWithIdentities(r *Rng, n int, when time.Time) []byte {
 		fmt.Fprintln(os.Stderr, "NewEntity:", err)
 		os.Exit(1)
 	}
-	isPrimary := false
+	isPrimary := pgpAllPrimary
 	for k := 1; k < n; k++ {
 		uid := packet.NewUserId(fmt.Sprintf("Identity %c", 'B'+k), "", fmt.Sprintf("id%d@example.org", k))
 		id := &openpgp.Identity{Name: uid.Id, UserId: uid, SelfSignature: &packet.Signature{
@@ -124,6 +124,9 @@ func genC04(c *Ctx) {
 		{"pgp-3ids", "k3.asc", embedded("pgp/ids3.asc")},
 		{"pgp-4ids", "k4.asc", embedded("pgp/ids4.asc")},
 		{"pgp-expiring-subkey", "kx.asc", embedded("pgp/expiring.asc")},
+		{"pgp-two-primary-uids", "k2p.asc", embedded("pgp/twoprimary.asc")},
+		{"jwt-a", "a.jwt", jwtWith(map[string]any{"sub": "a", "iss": "issuer-a", "jti": "a-0001"}, map[string]any{"alg": "RS256", "kid": "signing-key-2023"})},
+		{"jwt-b", "b.jwt", jwtWith(map[string]any{"sub": "b"}, map[string]any{"alg": "none"})},
 		{"pem-bundle", "chain.pem", fixture("java/chain.pem")},
 		{"jwt", "t.jwt", jwtWith(map[string]any{"sub": "s", "iss": "i", "aud": "a", "jti": "j", "exp": "1700000000", "iat": "1700000000", "nbf": "1700000000"},
 			map[string]any{"alg": "ES256", "typ": "JWT", "kid": "k", "x5u": "u", "jku": "j"})},
@@ -213,6 +216,45 @@ func genC04(c *Ctx) {
 		}
 		c.Emit("env:"+in.tag, SL{S(in.name), SB(in.data), SB(firstOut)}, l2)
 		os.Remove(p)
+	}
+	// the same inputs once more, interleaved (A, B, C, ... then in reverse): output must not depend on
+	// what was inspected in between
+	firsts := map[string]string{}
+	order := make([]int, 0, 2*len(inputs))
+	for i := range inputs {
+		order = append(order, i)
+	}
+	for i := len(inputs) - 1; i >= 0; i-- {
+		order = append(order, i)
+	}
+	for _, in := range inputs {
+		os.WriteFile(filepath.Join(dir, in.name), in.data, 0o644)
+	}
+	outs := map[int]map[string]bool{}
+	for pass := 0; pass < 3; pass++ {
+		for _, i := range order {
+			o, _ := inspectObs(filepath.Join(dir, inputs[i].name))
+			s := o.String()
+			if _, ok := firsts[inputs[i].name]; !ok {
+				firsts[inputs[i].name] = s
+			}
+			if outs[i] == nil {
+				outs[i] = map[string]bool{}
+			}
+			outs[i][s] = true
+		}
+	}
+	for i, in := range inputs {
+		var ds []string
+		for s := range outs[i] {
+			ds = append(ds, s)
+		}
+		sort.Strings(ds)
+		l := SL{}
+		for _, s := range ds {
+			l = append(l, SB([]byte(s)))
+		}
+		c.Emit("repeat:interleaved-"+in.tag, SL{S(in.name), SB(in.data), SB([]byte(firsts[in.name]))}, l)
 	}
 	os.RemoveAll(dir)
 }
